@@ -90,25 +90,57 @@ def verdictC02 (isNew : Bool) (sp : SortedSet.S Int) (impl : String) : String :=
     (cs.all (fun c => (c : Int) ≤ bound + 1), s!"Get made {cs} comparisons, more than {bound + 1}"),
     (!isNew || n == 0 || h == (Nat.log2 n : Int), s!"New from {n} keys has height {h}, not ⌊log2 n⌋ = {Nat.log2 n}")]
 
+/-- the bulk lines of the large cases: `addn r k0,d,n`, `replacen r k0,d,n`, `removen r k0,d,n` are the `n` single
+calls `Add/Replace/Remove(k0 + i*d)`; the result shown is the string of their `T`/`F` results.  (The numbers are
+one token: the shrinker of tools/check.py drops tokens inside lines of more than five.) -/
+def parseBulk : List String → Option (List (Op Int))
+  | [name, r, a] =>
+    match a.splitOn "," with
+    | [k0, d, n] => do
+      let r ← r.toNat?; let k0 ← k0.toInt?; let d ← d.toInt?; let n ← n.toNat?
+      let mk : Option (Nat → Int → Op Int) :=
+        if name == "addn" then some .add else if name == "replacen" then some .replace
+        else if name == "removen" then some .remove else none
+      let mk ← mk
+      some ((List.range n).map fun (i : Nat) => mk r (k0 + Int.ofNat i * d))
+    | _ => none
+  | _ => none
+
+/-- run `ops` one after the other through `stepf`; the concatenated results -/
+def foldOps (stepf : σ → Op Int → σ × Out Int) (st : σ) (ops : List (Op Int)) : σ × String :=
+  let (st', outs) := ops.foldl (fun (acc : σ × List String) op =>
+    let (st', o) := stepf acc.1 op; (st', fmtOut o :: acc.2)) (st, [])
+  (st', String.join outs.reverse)
+
 def stepLine (c02 : Bool) (s : S) (toks : List String) (impl : String) : S × String × String :=
   match toks with
   | "reset" :: mode :: _ => ({ div10 := mode == "div10" }, "-", "-")
   | ["reset"] => ({}, "-", "-")
   | _ =>
-    match parseOp toks with
+    -- a single op, or the single ops of a bulk line (observed like its first op)
+    let parsed : Option (Op Int × List (Op Int)) := match parseOp toks with
+      | some op => some (op, [])
+      | none => match parseBulk toks with
+        | some (op :: ops) => some (op, op :: ops)
+        | _ => none
+    match parsed with
     | none => (s, "bad-op", "bad bad-op")
-    | some op =>
+    | some (op, bulk) =>
       let cmp := s.cmp
       let srt := sortCompact cmp
-      let (m', mo) := Model.Stree.step cmp srt s.m op
-      let (sp', so) := SortedSet.step cmp srt s.sp op
+      let ((m', mo), (sp', so)) : (Regs (T Int) × String) × (Regs (SortedSet.S Int) × String) :=
+        if bulk.isEmpty then
+          let (m', mo) := Model.Stree.step cmp srt s.m op
+          let (sp', so) := SortedSet.step cmp srt s.sp op
+          ((m', fmtOut mo), (sp', fmtOut so))
+        else (foldOps (Model.Stree.step cmp srt) s.m bulk, foldOps (SortedSet.step cmp srt) s.sp bulk)
       let (r, b) := target op
       let mobs := match m'.get r with
-        | some t => observe (fun o => (Model.Stree.step cmp srt m' o).2) (fmtOut mo) r b ++ observeShape cmp t b
-        | none => "r=" ++ fmtOut mo
+        | some t => observe (fun o => (Model.Stree.step cmp srt m' o).2) mo r b ++ observeShape cmp t b
+        | none => "r=" ++ mo
       let sobs := match sp'.get r with
-        | some _ => observe (fun o => (SortedSet.step cmp srt sp' o).2) (fmtOut so) r b
-        | none => "r=" ++ fmtOut so
+        | some _ => observe (fun o => (SortedSet.step cmp srt sp' o).2) so r b
+        | none => "r=" ++ so
       let v :=
         if c02 then
           match sp'.get r with
